@@ -126,4 +126,10 @@ pub trait Mmapper: Sync {
     /// Arguments:
     /// * `addr`: Address in question
     fn is_mapped_address(&self, addr: Address) -> bool;
+
+    /// Verification hook: reset the recorded state of the chunks overlapping the range to
+    /// `Unmapped` without any request to the operating system (bookkeeping only; used to give a
+    /// test its own map of "mapped" data chunks).
+    #[cfg(feature = "mmtk_verif")]
+    fn verif_set_unmapped(&self, _start: Address, _bytes: usize) {}
 }
